@@ -99,6 +99,23 @@ Theorem C05_accepted_implies_all_prefixes_ok : forall (fin : name -> bool) (comp
 Proof. exact wp_all_prefixes_ok. Qed.
 Print Assumptions C05_accepted_implies_all_prefixes_ok.
 
+(* update_pack: [covered covers s pk n] (Model/Fs.v; evaluated by coqc on the real traces at every unlink
+   that update_pack issues) says that in every view of the pack name pk - volatile and after a power loss -
+   pk holds a pack containing the key of result file n with n's value.  From such a state on, whatever the
+   writer does (the unlink of n included) short of replacing the pack or re-creating its directory, every
+   process-kill view and every post-power-loss image still has that value in the pack: moving a result into
+   the pack never loses it. *)
+Theorem C05_packed_result_stays_available : forall (fin : name -> bool) (complete : cid -> bool)
+  (covers : cid -> name -> bool) (h w : list fsop) (pk n : name),
+  write_protocol fin complete (h ++ w) = true -> fin pk = true ->
+  covered covers (run fin empty_fs h) pk n = true ->
+  forallb (fun op => negb (touches op pk) && negb (makes_dir op (fst pk))) w = true ->
+  (exists c, kill_view (run fin (run fin empty_fs h) w) pk = Some (Cid c) /\ covers c n = true) /\
+  (forall img, pl_image (run fin (run fin empty_fs h) w) img ->
+               exists c, img pk = Some (Cid c) /\ covers c n = true).
+Proof. exact wp_packed_stays_available. Qed.
+Print Assumptions C05_packed_result_stays_available.
+
 (* redis: dump is one SET of the complete encoding - at every point of it the key holds its old
    value or the complete new one, and no other key changes *)
 Theorem C05_redis_dump_atomic : forall (s : kv) (k : positive) (enc : cid) (p q : list rcmd),
@@ -140,6 +157,23 @@ Example C05_nonvacuous :
   (* ... during the re-dump the key holds the old or the new complete value, in every view *)
   all_prefixes_ok ex_fin ex_complete empty_fs (ex_dump ++ ex_redump) [ex_key; (3,1)%positive] = true.
 Proof. vm_compute. repeat split; reflexivity. Qed.
+
+(* update_pack after ex_dump: the pack (content 5, it contains ex_key's value) is written through a temporary
+   file and renamed to packs/jugpack = (3,1); with the fsync of packs/ the key is covered in every view and
+   its file may be unlinked; without it (the code before the repair) a power loss may leave no pack at all *)
+Definition ex_pack : name := (3, 1)%positive.
+Definition ex_complete2 (c : cid) : bool := ex_complete c || Pos.eqb c 5.
+Definition ex_covers (c : cid) (n : name) : bool := Pos.eqb c 5 && name_eqb n ex_key.
+Definition ex_update_pack (sync : bool) : list fsop :=
+  [Mkdir 3; Mkstemp (1,3) 3; WriteData 3 5; Fsync 3; FsyncDir 1; Rename (1,3) ex_pack]%positive
+  ++ (if sync then [FsyncDir 3] else []).
+Example C05_update_pack_nonvacuous :
+  covered ex_covers (run ex_fin empty_fs (ex_dump ++ ex_update_pack true)) ex_pack ex_key = true /\
+  write_protocol ex_fin ex_complete2 (ex_dump ++ ex_update_pack true ++ [Unlink ex_key true]) = true /\
+  covered ex_covers (run ex_fin empty_fs (ex_dump ++ ex_update_pack false)) ex_pack ex_key = false /\
+  In None (pl_outcomes (run ex_fin empty_fs (ex_dump ++ ex_update_pack false ++ [Unlink ex_key true])) ex_pack) /\
+  In None (pl_outcomes (run ex_fin empty_fs (ex_dump ++ ex_update_pack false ++ [Unlink ex_key true])) ex_key).
+Proof. vm_compute. repeat split; auto. Qed.
 
 (* each mutant is rejected by write_protocol AND has a crash point with a post-crash view in which
    the final name holds something that is not a complete encoding *)
